@@ -87,10 +87,12 @@ def peel_type(facts, tix, depth=0):
 
 
 class BodyInfo:
-    def __init__(self, body):
+    def __init__(self, body, subst=None):
         self.body = body
         self.facts = body.facts
         self.T = Terms(body)
+        if subst:
+            self.T.subst = dict(subst)
         self.sites = []
         self.by_block = {}
         for b, t in body.calls():
